@@ -9,7 +9,8 @@ EXTENDS Families, Json
 
 CONSTANTS Shard, NShards, OutFile, Seed, Stride, Stride3
 
-Src(e) == Render(UnparseMin(e), "tight")
+(* string literals are spelled as raw strings where possible (and identifiers quoted), so that several raw strings meet in one text *)
+Src(e) == Render(UnparseSt(e, StQuoted), "tight")
 SubstCase(g, i) ==
   LET c == CtxAt(g, i) x == BaseAt(g, i) e == Plug(c, x) IN
   IF IsBad(UnparseMin(e)) \/ IsBad(UnparseMin(x)) THEN [k |-> "skip"]
